@@ -1,6 +1,7 @@
 import Flodym.Driver.Parse
 import Flodym.Stocks
 import FlodymGen.GaussLobatto
+import Flodym.History
 /-!
 # Driver commands for the streams `dsm` / `dsm-history`: time grid, quadrature, survival tables,
 stock models (K = Rat)
@@ -17,6 +18,9 @@ structure DsmState where
   sv : List ((Nat × Nat) × Array Rat) := []
   /-- the survival table, materialised once all values are known -/
   sfArr : Array Rat := #[]
+  /-- stream `dsm-history`: survival tables per parameter set, and the object under test -/
+  psets : List (Nat × Array Rat) := []
+  hist : Option (Hist.HState Nat (Array Rat) (String × Array Rat) String) := none
 
 def DsmState.itf (s : DsmState) : Nat → Rat := fun k => s.it.getD k 0
 
@@ -73,6 +77,28 @@ def splitSemi (toks : List String) : List (List String) :=
     | ";" :: t, cur, acc => go t [] (cur.reverse :: acc)
     | x :: t, cur, acc => go t (x :: cur) acc
   go toks [] []
+
+/-- the results of `compute()` for the object under test, printed -/
+def histCompute (s : DsmState) (d : String × Array Rat) (sfA pdfA : Array Rat) : String :=
+  let sf := arr3 s.n s.m sfA
+  let pdf := arr3 s.n s.m pdfA
+  if d.1 == "idsm" then
+    let r := inflowDrivenWith s.itf s.n (arr2 s.m d.2) sf pdf
+    s!"ok S {showRats (table2 s.n s.m r.stock)} | O {showRats (table2 s.n s.m r.outflow)} | SC {showRats (table3 s.n s.m r.stockByCohort)} | OC {showRats (table3 s.n s.m r.outflowByCohort)}"
+  else
+    let stock := arr2 s.m d.2
+    let iwpTab : Array Rat := (table2 s.n s.m (sdInflowWP s.n stock sf)).toArray
+    let r := stockDrivenFromWith s.itf s.n stock sf pdf (arr2 s.m iwpTab)
+    s!"ok I {showRats (table2 s.n s.m r.inflow)} | O {showRats (table2 s.n s.m r.outflow)} | SC {showRats (table3 s.n s.m r.stockByCohort)} | OC {showRats (table3 s.n s.m r.outflowByCohort)}"
+
+/-- one step of the cache state machine (`Flodym/History.lean`) instantiated for the driver;
+which caches `set_prms` discards comes from the regenerated constants -/
+def histStep (s : DsmState) (h : Hist.HState Nat (Array Rat) (String × Array Rat) String)
+    (op : Hist.HOp Nat (String × Array Rat)) : Hist.HState Nat (Array Rat) (String × Array Rat) String :=
+  Hist.step
+    (fun k => ((s.psets.find? (·.1 == k)).map (·.2)).getD #[])
+    (fun sfA => (table3 s.n s.m (pdfTable (arr3 s.n s.m sfA))).toArray)
+    (histCompute s) Gen.setPrmsResetsSf Gen.setPrmsResetsPdf h op
 
 def dsmStep (s : DsmState) (toks : List String) : Option (DsmState × String) :=
   match toks with
@@ -137,6 +163,45 @@ def dsmStep (s : DsmState) (toks : List String) : Option (DsmState × String) :=
           | .raise => "raise" | .note => "note" | .ok => "ok"
         (s, s!"ok B {showRats (table2 s.n s.m bal)} | agg {showRat agg} | {verdict}")
       | _ => (s, "err"))
+  -- ---- stream dsm-history ------------------------------------------------------------------
+  | ["psetend", kt] =>
+    -- the `sval` lines since the last `quad`/`m`/`psetend` belong to parameter set k
+    some (match kt.toNat? with
+      | some k =>
+        let tab := (table3 s.n s.m (sfTable s.Q s.Sq)).toArray
+        ({ s with psets := (k, tab) :: s.psets.filter (·.1 != k), sv := [] }, "ok")
+      | none => (s, "err"))
+  | "h_new" :: kind :: kt :: vals =>
+    some (match kt.toNat?, vals.mapM parseRat? with
+      | some k, some vs => ({ s with hist := some { prm := k, driver := (kind, vs.toArray) } }, "ok")
+      | _, _ => (s, "err"))
+  | "h_setprms" :: [kt] =>
+    some (match kt.toNat?, s.hist with
+      | some k, some h =>
+        ({ s with hist := some (histStep s h (.setPrms k)) }, "ok")
+      | _, _ => (s, "err"))
+  | "h_setdriver" :: vals =>
+    some (match vals.mapM parseRat?, s.hist with
+      | some vs, some h => ({ s with hist := some (histStep s h (.setDriver (h.driver.1, vs.toArray))) }, "ok")
+      | _, _ => (s, "err"))
+  | ["h_readsf"] =>
+    some (match s.hist with
+      | some h =>
+        let h' := histStep s h .readSf
+        ({ s with hist := some h' }, "ok " ++ showRats ((h'.sf.getD #[]).toList))
+      | none => (s, "err"))
+  | ["h_readpdf"] =>
+    some (match s.hist with
+      | some h =>
+        let h' := histStep s h .readPdf
+        ({ s with hist := some h' }, "ok " ++ showRats ((h'.pdf.getD #[]).toList))
+      | none => (s, "err"))
+  | ["h_compute"] =>
+    some (match s.hist with
+      | some h =>
+        let h' := histStep s h .compute
+        ({ s with hist := some h' }, h'.res.getD "err")
+      | none => (s, "err"))
   | _ => none
 
 end Flodym.Driver
